@@ -42,8 +42,9 @@ type foreignDesc struct {
 	Kind  string `json:"kind"`  // new | wrap | ptr | nilptr | slice | map | val | wrapg
 	Text  string `json:"text"`  // message / contents
 	Inner int    `json:"inner"` // wrap: index of the wrapped foreign error (must precede)
-	Cell  int    `json:"cell"`  // wrapg: the gerror value (cell) wrapped with %w; such entries come last
-	// and are built after the history has run (they may wrap derived errors)
+	Cell  int    `json:"cell"`  // wrapg: the gerror value (cell) wrapped with %w
+	// foreign errors are built when first used by a Convert, the others after the history has
+	// run, so a wrapper may wrap a derived error
 }
 
 type ref struct {
@@ -119,8 +120,23 @@ func embOf(e gerror.Error) *gerror.GError {
 
 type world struct {
 	cells   []cell
+	descs   []foreignDesc
 	foreign []error
 	fgal    []string // Gallina value of each foreign error
+	made    []bool
+}
+
+// ensure builds foreign error k (and what it wraps) if that has not happened yet.
+func (w *world) ensure(k int) {
+	if w.made[k] {
+		return
+	}
+	d := w.descs[k]
+	if d.Kind == "wrap" {
+		w.ensure(d.Inner)
+	}
+	w.made[k] = true
+	w.mkForeign(k, d)
 }
 
 func (w *world) mkRoot(d rootDesc) {
@@ -182,8 +198,8 @@ func (w *world) mkForeign(k int, d foreignDesc) {
 	default: // val: comparable struct value, equal contents are ==
 		e, g = valErr{d.Text}, "VF 6 true "+contentID(d.Text)+" VNil"
 	}
-	w.foreign = append(w.foreign, e)
-	w.fgal = append(w.fgal, g)
+	w.foreign[k] = e
+	w.fgal[k] = g
 }
 
 // contentID maps contents to a payload number (equal contents, equal number).
@@ -202,6 +218,7 @@ func (w *world) errOf(r ref) error {
 	case "emb":
 		return w.cells[r.I].emb
 	case "foreign":
+		w.ensure(r.I)
 		return w.foreign[r.I]
 	}
 	return nil
@@ -289,14 +306,10 @@ func run(kind string, roots []rootDesc, foreign []foreignDesc, ops []opDesc) (ca
 	for _, d := range roots {
 		w.mkRoot(d)
 	}
-	nEarly := 0
-	for k, d := range foreign {
-		if d.Kind == "wrapg" {
-			break
-		}
-		w.mkForeign(k, d)
-		nEarly++
-	}
+	w.descs = foreign
+	w.foreign = make([]error, len(foreign))
+	w.fgal = make([]string, len(foreign))
+	w.made = make([]bool, len(foreign))
 	c := caseJ{Kind: kind, Roots: roots, Foreign: foreign, Ops: ops, Embs: []int{}}
 	for i, d := range roots {
 		if d.Kind != "base" && d.IsFac {
@@ -336,8 +349,8 @@ func run(kind string, roots []rootDesc, foreign []foreignDesc, ops []opDesc) (ca
 		}
 	}
 	c.NCells = len(w.cells)
-	for k := nEarly; k < len(foreign); k++ { // the wrappers of gerror values
-		w.mkForeign(k, foreign[k])
+	for k := range foreign { // those no Convert has used
+		w.ensure(k)
 	}
 	vals := make([]error, 0, len(w.cells)+len(c.Embs)+len(w.foreign)+1)
 	for _, cl := range w.cells {
@@ -600,6 +613,10 @@ func corpus(out *gal.Out) {
 		foreignDesc{Kind: "wrapg", Cell: 5}, foreignDesc{Kind: "wrapg", Cell: 2})
 	emit(out, "corpus", base, wr, []opDesc{op(0, "Stack"), op(2, "Msg"), conv(3, "Convert", 1), conv(1, "ConvertS", 7),
 		conv(6, "Convert", 2), {Recv: ref{"emb", 2}, M: "Convert", Err: ref{"foreign", 1}}})
+	// Convert of a foreign error that wraps a gerror value: it is not itself a gerror error, so it
+	// is converted (a new error that records the wrapper), not returned unwrapped
+	emit(out, "corpus", base, wr, []opDesc{op(0, "Stack"), op(2, "Msg"), conv(1, "Convert", 9), conv(0, "ConvertS", 10),
+		conv(3, "Convert", 11), conv(5, "Convert", 12), conv(6, "ConvertS", 10)})
 }
 
 func main() {
@@ -653,6 +670,9 @@ func main() {
 		for i := 0; i < *n; i++ {
 			roots := randRoots(r)
 			fs := randForeign(r)
+			for k, nw := 0, r.IntN(3); k < nw; k++ { // wrappers of pool factories: may be converted
+				fs = append(fs, foreignDesc{Kind: "wrapg", Cell: r.IntN(len(roots))})
+			}
 			ops, ncells := randOps(r, roots, len(fs), 4+r.IntN(14))
 			for k, nw := 0, r.IntN(3); k < nw; k++ { // foreign errors wrapping a gerror value
 				fs = append(fs, foreignDesc{Kind: "wrapg", Cell: r.IntN(ncells)})
